@@ -524,6 +524,8 @@ class EvalFunc:
                     return pyscript_service_handler
 
                 for srv_name in dec_args if dec_args else [f"{DOMAIN}.{func_name}"]:
+                    if srv_name in self.trigger_service:
+                        continue
                     if type(srv_name) is not str or srv_name.count(".") != 1:
                         raise ValueError(f"{exc_mesg}: @service argument must be a string with one period")
                     domain, name = srv_name.split(".", 1)
